@@ -194,6 +194,18 @@ WarnExpect(f, ar) ==
     IF f = "density_from_concentration" THEN "no"
     ELSE CASE RangeClass(f, ar) = "Toutside" -> "yes" [] RangeClass(f, ar) = "inside" -> "no" [] OTHER -> "either"
 
+(* guard band (DESIGN 6: every float threshold has one): a point exactly ON a range limit, handed *)
+(* over in a converted unit (2000 bar as 2e8 Pa, 313.15 K as 313150 mK), may land on either side  *)
+(* of the code's float comparison after rescaling; there a warning is neither demanded nor        *)
+(* forbidden.  In plain numbers / documented units the limits themselves count as inside.         *)
+OnBoundary(f, ar) ==
+    \/ HasTRange(f) /\ (Norm(ar.T) = Norm(TRange(f)[1]) \/ Norm(ar.T) = Norm(TRange(f)[2]))
+    \/ f = "water_permittivity" /\ Norm(ar.P) = <<2000, 1>>
+    \/ f = "sulfuric_acid_density" /\ (Norm(ar.w) = <<1, 10>> \/ Norm(ar.w) = <<9, 10>>)
+WarnExpectM(f, ar, m) ==
+    IF WarnExpect(f, ar) = "no" /\ OnBoundary(f, ar) /\ m.name \in {"scaled", "scaledT"} THEN "either"
+    ELSE WarnExpect(f, ar)
+
 ------------------------------------------------------------------------------
 (* exact laws *)
 Celsius(T) == DSub(DFromQ(T), DHund(27315))
@@ -426,7 +438,7 @@ CaseRec ==
       exp |-> [kind |-> e.kind, q |-> e.q, term |-> e.term, bdq |-> e.bdq,
                rtol |-> Rtol(fn, mode), atol |-> Atol(fn),
                unit |-> ResultUnit(fn), dim |-> DimPairs(UnitTable[ResultUnit(fn)].dim),
-               warn |-> WarnExpect(fn, args), warned |-> warned,
+               warn |-> WarnExpectM(fn, args, mode), warned |-> warned,
                \* the fixed-point inverse documents a refusal (NoConvergence); it is accepted only
                \* where the iteration starts outside the correlation's range (w > 0.7)
                refusal |-> IF fn = "density_from_concentration" /\ QLt(<<7, 10>>, args.w)
